@@ -466,7 +466,7 @@ def rds_tokens(script):
 
     toks = []
     for st in script:
-        op = ALIAS.get(st[0], st[0])
+        op = "duo" if st[0] == "isub" else ALIAS.get(st[0], st[0])
         toks.append(op)
         for x in st[1:]:
             if isinstance(x, list):
@@ -754,7 +754,7 @@ def run_rds_script(ctx, case, rep):
                 fail("C07/Rdataset/ttl/minimum-of-merged", f"register {i}: ttl {r.ttl}, TTLs merged since last empty: {ghost[i]}")
         if imm_before and is_imm(tgt) and mutating and rds_snapshot(regs[tgt]) != snap[tgt]:
             fail("C07/ImmutableRdataset/mutated", f"{op0} changed an immutable rdataset to {rds_state(regs[tgt])}")
-        if imm_before and mutating and not out.startswith("err") and not (op == "du" and st[1] != st[2] and len(regs[st[2]]) == 0):
+        if imm_before and mutating and not out.startswith("err") and not (op0 == "du" and st[1] != st[2] and len(regs[st[2]]) == 0):
             fail("C07/ImmutableRdataset/mutator-accepted", f"{op0} did not raise on an immutable rdataset")
     return trace
 
